@@ -542,6 +542,17 @@ impl<T: Qcow2IoOps> Qcow2Dev<T> {
 
     /// flush meta data in ram to disk
     pub async fn flush_meta(&self) -> Qcow2Result<()> {
+        // Refcounts are flushed before the mappings. A write which allocates
+        // a cluster and maps it in between the two passes would get its
+        // mapping flushed, and its refcount not: no read, write or discard
+        // runs while the meta data is flushed.
+        let _io = self.io_lock.write().await;
+
+        self.__flush_meta().await
+    }
+
+    /// flush_meta() for a caller which holds the io lock exclusively
+    pub(crate) async fn __flush_meta(&self) -> Qcow2Result<()> {
         let _flush_lock = self.flush_lock.lock().await;
 
         log::debug!("flush_meta: entry");
